@@ -206,6 +206,46 @@ Definition apply_mop (m : mdata) (o : mop) : bool * mdata :=
       else (true, m)
   end.
 
+(* ---------- coordinator.StatementExecutor: user-management statements ---------- *)
+
+(* the statements that change users and grants, abstracted to what the executor passes on
+   (XSetPassword carries the id of the hash UpdateUser stores; XOther: anything else) *)
+Inductive xstmt :=
+| XGrant (name db : str) (p : N)
+| XRevoke (name db : str) (p : N)
+| XGrantAdmin (name : str)
+| XRevokeAdmin (name : str)
+| XSetPassword (name : str) (hash : N)
+| XDropUser (name : str)
+| XOther.
+
+(* Data.UserPrivilege: error for an unknown user, NoPrivileges when the map has no entry *)
+Definition user_privilege (m : mdata) (name db : str) : option N :=
+  match find_user (m_users m) name with
+  | None => None
+  | Some u => Some (match lookup_priv (u_privs u) db with Some p => p | None => NoPrivileges end)
+  end.
+
+(* executeGrantStatement / executeRevokeStatement / executeGrantAdminStatement /
+   executeRevokeAdminStatement / executeSetPasswordUserStatement / executeDropUserStatement,
+   with the MetaClient calls resolved to the data.go operations *)
+Definition exec_stmt (m : mdata) (x : xstmt) : bool * mdata :=
+  match x with
+  | XGrant name db p => apply_mop m (OSetPriv name db p)
+  | XRevoke name db p =>
+      (* "Revoking all privileges means there's no need to look at existing user privileges" *)
+      if p =? AllPrivileges then apply_mop m (OSetPriv name db NoPrivileges)
+      else match user_privilege m name db with
+           | None => (false, m)
+           | Some held => apply_mop m (OSetPriv name db (N.ldiff held p))   (* held &^ revoked *)
+           end
+  | XGrantAdmin name => apply_mop m (OSetAdmin name true)
+  | XRevokeAdmin name => apply_mop m (OSetAdmin name false)
+  | XSetPassword name hash => apply_mop m (OUpdateUser name hash)
+  | XDropUser name => apply_mop m (ODropUser name)
+  | XOther => (true, m)
+  end.
+
 (* ---------- meta.Client: Authenticate with its cache, metadata swap ---------- *)
 
 Section Auth.
@@ -500,6 +540,44 @@ Section Auth.
         | _ => ((403, []), c')
         end
     end.
+
+  (* ----- a session on one node: tables installed, requests, user-management statements ----- *)
+  (* TStmt: one user-management statement sent as a query request with credentials cr and
+     executed by the real StatementExecutor; every successful change is installed on the node
+     before the next step *)
+  Inductive step :=
+  | TSet (m : mdata)
+  | TReq (r : request)
+  | TStmt (cr : creds) (ss : list stmt) (db : str) (x : xstmt).
+
+  (* OStmt: HTTP status, statements executed, did the statement succeed, the node's user table afterwards *)
+  Inductive sobs :=
+  | OSet
+  | OReq (o : hres)
+  | OStmt (status executed : N) (ok : bool) (users_after : list user).
+
+  Record seqst := mkQ { q_master : mdata; q_node : client }.
+
+  Definition seq_step (chk secret_set : bool) (salt : str) (s : seqst) (t : step) : sobs * seqst :=
+    match t with
+    | TSet m => (OSet, mkQ m (swap (q_node s) m))
+    | TReq r => let oc := handle chk secret_set (q_node s) salt r in (OReq (fst oc), mkQ (q_master s) (snd oc))
+    | TStmt cr ss db x =>
+        let oc := handle chk secret_set (q_node s) salt (RQuery cr true true ss db 1) in
+        if snd (fst oc) =? 0 then (OStmt (fst (fst oc)) 0 false (c_users (snd oc)), mkQ (q_master s) (snd oc))
+        else
+          let em := exec_stmt (q_master s) x in
+          let c' := if fst em then swap (snd oc) (snd em) else snd oc in
+          (OStmt (fst (fst oc)) (snd (fst oc)) (fst em) (c_users c'), mkQ (snd em) c')
+    end.
+
+  Fixpoint seq_run (chk secret_set : bool) (salt : str) (s : seqst) (ts : list step) : list sobs :=
+    match ts with
+    | [] => []
+    | t :: r => let os := seq_step chk secret_set salt s t in fst os :: seq_run chk secret_set salt (snd os) r
+    end.
+
+  Definition seq0 : seqst := mkQ (mkM [] []) client0.
 
   (* several requests in sequence on one node (the cache carries over) *)
   Fixpoint handle_all (chk secret_set : bool) (c : client) (salt : str) (rs : list request) : list hres :=
